@@ -463,6 +463,13 @@ func runOpWith(w *world.World, op Op, begin bool) Outcome {
 			}
 		}
 		cancel()
+	case "fixnode":
+		ctx, cancel := context.WithTimeout(w.Ctx, 60*time.Second)
+		_, err := w.Cal.NodeResource(ctx, op.Name, true)
+		cancel()
+		if err != nil {
+			out.Err = err.Error()
+		}
 	case "noderesource":
 		ctx, cancel := context.WithTimeout(w.Ctx, 60*time.Second)
 		_, err := w.Cal.NodeResource(ctx, op.Name, false)
